@@ -20,6 +20,25 @@
            }
        }
 
+   Before that, since the repair "a cached result whose output path is a device node (-o /dev/null) is written
+   into it instead of renaming a file over it":
+
+       let special = fs::metadata(&path)                          [o_special]: the path exists (following links) and
+           .map(|m| !is_file && !is_dir).unwrap_or(false);        is neither a regular file nor a directory
+       if special {
+           let mut out = OpenOptions::new().write(true).open(&path)?;     AOpenDev   (error: abort)
+           match (self.get_object(&key, &mut out), optional) {            AWriteDev* (into the device: a sink)
+               (Ok(_), _) | (Err(_), true) => continue,                   no rename, no chmod; ANY failure of an
+               (Err(e), false) => return Err(e),                          optional member is skipped here; AFail
+           }
+       }
+
+   A device node is not a regular inode holding bytes: in the model it is a sink — [AOpenDev] / [AWriteDev]
+   change nothing in the file system (the directory entry stays, there are no old bytes to lose, whoever reads
+   the path reads what the device gives, which the extraction does not influence).  [o_special] is the
+   environment's answer to the `metadata` call, like [o_dec] and [o_fault]; the sink semantics is only right
+   for paths that really are device nodes, which is what the code's test guarantees.
+
    [get_object] fails when the member is absent ([DecAbsent]), or is stored but is not `Stored`-compressed or
    does not decode (zstd error, zip CRC error, write error: [DecCorrupt]): whatever it wrote before failing is
    in the temp file.  Only an ABSENT optional member is skipped; a stored one that cannot be read back fails
@@ -50,6 +69,7 @@ Record obj := mkObj {
   o_dec : dec;                (* outcome of get_object *)
   o_optional : bool;
   o_fault : fault;            (* a failing system call, if any *)
+  o_special : bool;           (* the output path is a device node (`-o /dev/null`): written into, never replaced *)
 }.
 
 Definition o_tmp (o : obj) : path := tmp_of (o_path o) (o_sfx o).
@@ -64,7 +84,9 @@ Inductive action :=
 | AUnlink (t : path)
 | AFail
 | AOpen (p : path)
-| ARead.
+| ARead
+| AOpenDev (p : path)        (* open(path, O_WRONLY) of a device node *)
+| AWriteDev (b : bytes).     (* write into the device: a sink *)
 
 (* thread-local state: the open descriptor (an inode), the path it was opened at, what was read so far
    (path, inode, bytes), and whether the thread has stopped with an error *)
@@ -111,10 +133,24 @@ Definition act (a : action) (f : fs) (l : local) : fs * local :=
           end
       | None => (f, l)
       end
+  | AOpenDev p => (f, mkLocal None p (l_log l) false)
+  | AWriteDev _ => (f, l)
   end.
 
 (* what extract_objects does for one object *)
+Definition prog_special (o : obj) : list action :=
+  match o_fault o with
+  | FCreate => [AFail]                                  (* the open fails *)
+  | _ =>
+      AOpenDev (o_path o) :: map AWriteDev (o_chunks o) ++
+      match o_dec o with
+      | DecOk _ => []
+      | _ => if o_optional o then [] else [AFail]
+      end
+  end.
+
 Definition prog_obj (o : obj) : list action :=
+  if o_special o then prog_special o else
   match o_fault o with
   | FCreate => [AFail]
   | flt =>
@@ -156,6 +192,15 @@ Definition run (sched : list nat) (f0 : fs) (objs : list obj) (readers : list (@
 Inductive result := ROk | RDecompressionFailure | ROtherError.
 
 Definition o_hard (o : obj) : option result :=
+  if o_special o then
+    match o_fault o with
+    | FCreate => Some ROtherError
+    | _ => match o_dec o with
+           | DecOk _ => None
+           | _ => if o_optional o then None else Some RDecompressionFailure
+           end
+    end
+  else
   match o_fault o with
   | FCreate => Some ROtherError
   | flt =>
@@ -238,7 +283,8 @@ Inductive event :=
 | EWrite (t : path) (n : N)
 | ERename (a b : path)
 | EChmod (p : path) (m : N)
-| EUnlink (t : path).
+| EUnlink (t : path)
+| EOpenW (p : path).         (* open for writing of an existing path: only ever a device node *)
 
 (* the system calls the extraction thread issues from [s]: exactly the actions it executes while alive *)
 Fixpoint trace (acts : list action) (s : fs * local) : list event :=
@@ -253,6 +299,8 @@ Fixpoint trace (acts : list action) (s : fs * local) : list event :=
       | ARename t p => if l_dead (snd s') then trace r s' else ERename t p :: trace r s'
       | AChmod p m => EChmod p m :: trace r s'
       | AUnlink t => EUnlink t :: trace r s'
+      | AOpenDev p => EOpenW p :: trace r s'
+      | AWriteDev b => EWrite (l_path (snd s)) (N.of_nat (length b)) :: trace r s'
       | _ => trace r s'
       end
   end.
